@@ -128,7 +128,9 @@ inductive SOut where
   | aggStats (packets bytes flows : Nat)
   deriving DecidableEq, Repr
 
-def SFlow.rank (f : SFlow) : Nat := Spec.rank ⟨f.priority, f.mtch⟩
+/-- exact flows (prerequisite-rule reading, `Spec.exactSig`: every field the description could compare is compared in full) rank
+    above all priorities -/
+def SFlow.rank (f : SFlow) : Nat := Spec.rankSig ⟨f.priority, f.mtch⟩
 
 def hasOutput (f : SFlow) (port : Nat) : Bool :=
   f.actions.any fun a => match a with
